@@ -31,7 +31,7 @@ func translateRoots(cg *CallGraph) []*types.Func {
 
 func checkC05(r *Run) propMeta {
 	meta := propMeta{Level: "other",
-		Explanation: "Decides the structural clauses of determinism and side-effect freedom of translation: (R1) every `range` over a map (and maps.Keys/Values) in a function reachable from Translate/FromCypher/Translated/format.Statement/optimize.Optimize is order-insensitive by the E9 classifier (keyed inserts/deletes, commutative accumulation, collect-then-sort, existential tests, error returns) or listed with a reason; no reachable use of time.Now, math/rand, goroutines, select or %p formatting; (R2) no reachable function writes a package-level variable outside init/sync.Once; (R3) the caller's AST reaches only the optimiser's nil test and cypher.Copy, and the caller's parameter map is only read (copied into a fresh map); (R4) translator stack pops are error-gated. NOT decided: general panic freedom and bounded running time (runtime quantities); the C06 finding ($n with bound (n)) is reported there.",
+		Explanation: "Decides the structural clauses of determinism and side-effect freedom of translation: (R1) every `range` over a map (and maps.Keys/Values) in a function reachable from Translate/FromCypher/Translated/format.Statement/optimize.Optimize is order-insensitive by the E9 classifier (keyed inserts/deletes, commutative accumulation, collect-then-sort, existential tests, error returns) or listed with a reason; no reachable use of time.Now, math/rand, goroutines, select or %p formatting; (R2) no reachable function writes a package-level variable outside init/sync.Once; (R3) the caller's AST reaches only the optimiser's nil test and cypher.Copy, and the caller's parameter map is only read (copied into a fresh map); (R4) translator stack pops are error-gated. (R5) a value obtained from a function that can return a negative 'not found' sentinel is compared before it is used as a slice index. NOT decided: general panic freedom and bounded running time (runtime quantities); the C06 finding ($n with bound (n)) is reported there.",
 		Assumptions: []string{"calls through the caller-supplied KindMapper and context.Context are the boundary and are not followed"},
 		TrustedBase: []string{"go/types", "this analyser"}}
 	if err := r.Load("./cypher/...", "./graph/..."); err != nil {
@@ -48,6 +48,7 @@ func checkC05(r *Run) propMeta {
 	checkNondeterminismSources(r, cg, reach)
 	checkPackageState(r, cg, reach)
 	checkInputsUnchanged(r, cg)
+	checkSentinelIndexes(r, cg, reach)
 	r.Floor("C05-R1-map-order", 12)
 	return meta
 }
@@ -535,6 +536,19 @@ func checkPackageState(r *Run, cg *CallGraph, reach map[*types.Func]*cgEdge) {
 						report(v, s.Pos(), "mutated with "+id.Name)
 					}
 				}
+				// a package-level sync.Pool / sync.Map / atomic value is shared mutable state by construction: whatever
+				// one translation puts into it the next one gets out
+				if sel, ok := s.Fun.(*ast.SelectorExpr); ok {
+					if v := isPkgVar(sel.X); v != nil {
+						if nt := namedOf(v.Type()); nt != nil && nt.Obj().Pkg() != nil && (nt.Obj().Pkg().Path() == "sync" || nt.Obj().Pkg().Path() == "sync/atomic") {
+							switch sel.Sel.Name {
+							case "Lock", "Unlock", "RLock", "RUnlock", "Do":
+							default:
+								report(v, s.Pos(), "used through "+nt.Obj().Name()+"."+sel.Sel.Name+" (an object shared by every call)")
+							}
+						}
+					}
+				}
 			}
 			return true
 		})
@@ -718,4 +732,155 @@ func checkInputsUnchanged(r *Run, cg *CallGraph) {
 		}
 	}
 	_ = paramsP
+}
+
+// checkSentinelIndexes (R5): "no candidate" is returned as -1 by several search helpers.  A caller that uses such a
+// result as a slice index without first comparing it with zero or -1 panics with `index out of range [-1]` on the
+// inputs for which nothing qualifies — a crash instead of the error the general path would have returned.
+func checkSentinelIndexes(r *Run, cg *CallGraph, reach map[*types.Func]*cgEdge) {
+	const rule = "C05-R5-sentinel-index"
+	mayReturnNegative := map[*types.Func]bool{}
+	for fn, fd := range cg.Decl {
+		if fd.Body == nil {
+			continue
+		}
+		sig := fn.Type().(*types.Signature)
+		if sig.Results().Len() != 1 {
+			continue
+		}
+		if b, ok := sig.Results().At(0).Type().Underlying().(*types.Basic); !ok || b.Info()&types.IsInteger == 0 {
+			continue
+		}
+		info := cg.PkgOf[fn].TypesInfo
+		// constants and locals initialised with a negative constant
+		negVars := map[types.Object]bool{}
+		ast.Inspect(fd.Body, func(n ast.Node) bool {
+			switch x := n.(type) {
+			case *ast.AssignStmt:
+				if len(x.Lhs) == len(x.Rhs) {
+					for i, l := range x.Lhs {
+						if id, ok := l.(*ast.Ident); ok {
+							if tv, has := info.Types[x.Rhs[i]]; has && tv.Value != nil && strings.HasPrefix(tv.Value.ExactString(), "-") {
+								if obj := info.Defs[id]; obj != nil {
+									negVars[obj] = true
+								}
+							}
+						}
+					}
+				}
+			case *ast.ValueSpec:
+				for i, nm := range x.Names {
+					if i < len(x.Values) {
+						if tv, has := info.Types[x.Values[i]]; has && tv.Value != nil && strings.HasPrefix(tv.Value.ExactString(), "-") {
+							negVars[info.Defs[nm]] = true
+						}
+					}
+				}
+			}
+			return true
+		})
+		ast.Inspect(fd.Body, func(n ast.Node) bool {
+			if _, isLit := n.(*ast.FuncLit); isLit {
+				return false
+			}
+			if ret, ok := n.(*ast.ReturnStmt); ok && len(ret.Results) == 1 {
+				if tv, has := info.Types[ret.Results[0]]; has && tv.Value != nil && strings.HasPrefix(tv.Value.ExactString(), "-") {
+					mayReturnNegative[fn] = true
+				}
+				if id, ok := ast.Unparen(ret.Results[0]).(*ast.Ident); ok && negVars[info.Uses[id]] {
+					mayReturnNegative[fn] = true
+				}
+			}
+			return true
+		})
+	}
+	n := 0
+	for fn := range reach {
+		fd := cg.Decl[fn]
+		if fd == nil || fd.Body == nil {
+			continue
+		}
+		info := cg.PkgOf[fn].TypesInfo
+		// locals assigned from a may-return-negative function
+		sentinel := map[types.Object]*types.Func{}
+		ast.Inspect(fd.Body, func(x ast.Node) bool {
+			var lhs []ast.Expr
+			var rhs []ast.Expr
+			switch s := x.(type) {
+			case *ast.AssignStmt:
+				lhs, rhs = s.Lhs, s.Rhs
+			case *ast.ValueSpec:
+				for _, nm := range s.Names {
+					lhs = append(lhs, nm)
+				}
+				rhs = s.Values
+			}
+			if len(lhs) != len(rhs) {
+				return true
+			}
+			for i := range lhs {
+				id, ok := lhs[i].(*ast.Ident)
+				call, ok2 := ast.Unparen(rhs[i]).(*ast.CallExpr)
+				if !ok || !ok2 {
+					continue
+				}
+				if callee := calleeOf(info, call); callee != nil && mayReturnNegative[callee.Origin()] {
+					obj := info.Defs[id]
+					if obj == nil {
+						obj = info.Uses[id]
+					}
+					if obj != nil {
+						sentinel[obj] = callee
+					}
+				}
+			}
+			return true
+		})
+		for obj, callee := range sentinel {
+			compared, indexed := false, token.NoPos
+			ast.Inspect(fd.Body, func(x ast.Node) bool {
+				switch y := x.(type) {
+				case *ast.BinaryExpr:
+					switch y.Op {
+					case token.LSS, token.GEQ, token.EQL, token.NEQ, token.GTR, token.LEQ:
+						for _, side := range []ast.Expr{y.X, y.Y} {
+							if id, ok := ast.Unparen(side).(*ast.Ident); ok && info.Uses[id] == obj {
+								compared = true
+							}
+						}
+					}
+				case *ast.IndexExpr:
+					if id, ok := ast.Unparen(y.Index).(*ast.Ident); ok && info.Uses[id] == obj && indexed == token.NoPos {
+						if _, isMap := info.TypeOf(y.X).Underlying().(*types.Map); !isMap {
+							indexed = y.Pos()
+						}
+					}
+				case *ast.SliceExpr:
+					for _, b := range []ast.Expr{y.Low, y.High} {
+						if b == nil {
+							continue
+						}
+						ast.Inspect(b, func(k ast.Node) bool {
+							if id, ok := k.(*ast.Ident); ok && info.Uses[id] == obj && indexed == token.NoPos {
+								indexed = y.Pos()
+							}
+							return true
+						})
+					}
+				}
+				return true
+			})
+			if indexed == token.NoPos {
+				continue
+			}
+			n++
+			construct := shortFuncName(fn) + ":" + obj.Name()
+			if compared {
+				r.Pass(rule, construct, indexed, "%s (from %s, which can return a negative sentinel) is compared before it is used as an index", obj.Name(), callee.Name())
+			} else {
+				r.Fail(rule, construct, indexed, "%s comes from %s, which returns a negative value when nothing qualifies, and is used as an index without any comparison: those inputs crash the translation with an index-out-of-range panic instead of being answered or rejected", obj.Name(), callee.Name())
+			}
+		}
+	}
+	r.Note("%s: %d sentinel-valued indexes examined", rule, n)
 }
